@@ -10,14 +10,17 @@ import (
 )
 
 // recServer is a scripted MCP server (Streamable or legacy SSE) written without the library. It records
-// every HTTP request it receives and every connection it turns away while "down", and its answer to
-// initialize can be switched between the behaviours of hist.go.
+// every HTTP request it receives (also while "down": the request is read, recorded and the connection reset
+// without an answer), and its answer to initialize can be switched between the behaviours of hist.go.
+// TCP connections that never carry a request (net/http's transport dials spare connections in the
+// background) are counted separately and are not traffic of any step.
 type recServer struct {
 	legacy     bool
 	alwaysSess bool // Streamable: every initialize answer carries Mcp-Session-Id (keeps the client's GET attempt enabled)
 	srv        *http.Server
 	base       string // http://127.0.0.1:port
-	conns      map[net.Conn]struct{}
+	conns      map[net.Conn]bool // connection -> has carried at least one request
+	bare       int               // connections closed without ever carrying a request
 
 	mu       sync.Mutex
 	mode     string
@@ -33,32 +36,8 @@ type legacySess struct {
 	kill chan struct{}
 }
 
-type gateListener struct {
-	net.Listener
-	s *recServer
-}
-
-// Accept turns connections away (RST) while the server is down.
-func (g *gateListener) Accept() (net.Conn, error) {
-	for {
-		c, err := g.Listener.Accept()
-		if err != nil {
-			return nil, err
-		}
-		if g.s.isDown() {
-			g.s.note("REJECTED-CONNECTION")
-			if tc, ok := c.(*net.TCPConn); ok {
-				_ = tc.SetLinger(0)
-			}
-			_ = c.Close()
-			continue
-		}
-		return c, nil
-	}
-}
-
 func newRecServer(legacy, alwaysSess bool) *recServer {
-	s := &recServer{legacy: legacy, alwaysSess: alwaysSess, mode: mHealthy, sessions: map[string]*legacySess{}, conns: map[net.Conn]struct{}{}}
+	s := &recServer{legacy: legacy, alwaysSess: alwaysSess, mode: mHealthy, sessions: map[string]*legacySess{}, conns: map[net.Conn]bool{}}
 	ln, err := net.Listen("tcp", "127.0.0.1:0")
 	if err != nil {
 		panic("recServer: " + err.Error())
@@ -70,13 +49,18 @@ func newRecServer(legacy, alwaysSess bool) *recServer {
 		s.mu.Lock()
 		switch st {
 		case http.StateNew:
-			s.conns[c] = struct{}{}
+			s.conns[c] = false
+		case http.StateActive:
+			s.conns[c] = true
 		case http.StateClosed, http.StateHijacked:
+			if used, ok := s.conns[c]; ok && !used {
+				s.bare++
+			}
 			delete(s.conns, c)
 		}
 		s.mu.Unlock()
 	}}
-	go func() { _ = s.srv.Serve(&gateListener{Listener: ln, s: s}) }()
+	go func() { _ = s.srv.Serve(ln) }()
 	return s
 }
 
@@ -100,16 +84,10 @@ func (s *recServer) url() string {
 	return s.base + "/mcp"
 }
 
-func (s *recServer) isDown() bool {
+func (s *recServer) bareCount() int {
 	s.mu.Lock()
 	defer s.mu.Unlock()
-	return s.mode == mDown
-}
-
-func (s *recServer) note(what string) {
-	s.mu.Lock()
-	s.wire = append(s.wire, what)
-	s.mu.Unlock()
+	return s.bare
 }
 
 func (s *recServer) touchCount() int {
@@ -134,9 +112,10 @@ func (s *recServer) getCount() int {
 }
 
 // setMode switches the behaviour. Going down cuts every open connection (idle keep-alive connections and
-// legacy event streams) the way a dying server does.
+// legacy event streams) the way a dying server does; coming back up drops whatever connected meanwhile.
 func (s *recServer) setMode(mode string, variant int) {
 	s.mu.Lock()
+	wasDown := s.mode == mDown
 	s.mode, s.variant = mode, variant
 	var kills []*legacySess
 	if mode == mDown {
@@ -150,6 +129,8 @@ func (s *recServer) setMode(mode string, variant int) {
 		for _, ls := range kills {
 			close(ls.kill)
 		}
+		s.cutConnections()
+	} else if wasDown {
 		s.cutConnections()
 	}
 }
@@ -231,7 +212,23 @@ func (s *recServer) serve(w http.ResponseWriter, r *http.Request) {
 		s.gets++
 	}
 	mode, variant := s.mode, s.variant
+	if mode == mDown {
+		s.wire[len(s.wire)-1] = what + " [server down: reset without answer]"
+	}
 	s.mu.Unlock()
+	if mode == mDown {
+		// the request is on record; the client gets a connection reset instead of an answer
+		if hj, ok := w.(http.Hijacker); ok {
+			if c, _, err := hj.Hijack(); err == nil {
+				if tc, ok := c.(*net.TCPConn); ok {
+					_ = tc.SetLinger(0)
+				}
+				_ = c.Close()
+				return
+			}
+		}
+		panic(http.ErrAbortHandler)
+	}
 	if s.legacy {
 		s.serveLegacy(w, r, h, mode, variant)
 		return
